@@ -1,5 +1,8 @@
 use super::Graph;
-use crate::{ext::vec::VecExt, Edge, Error, ErrorKind, Node, AdjacentNode};
+use crate::{
+    ext::{iterator::sum_in_fixed_order, vec::VecExt},
+    AdjacentNode, Edge, Error, ErrorKind, Node,
+};
 use itertools::Itertools;
 use std::collections::{HashMap, HashSet};
 use std::fmt::Display;
@@ -1029,7 +1032,7 @@ where
     pub fn size(&self, weighted: bool) -> f64 {
         match weighted {
             false => self.get_all_edges().len() as f64,
-            true => self.get_all_edges().iter().map(|e| e.weight).sum(),
+            true => sum_in_fixed_order(self.get_all_edges().iter().map(|e| e.weight)),
         }
     }
 
